@@ -97,6 +97,16 @@ theorem C15_pipeline_shape (ds : List Site) :
     pipeline ds = ds.map (fun d => stageF (stageE d)) ++ redirsGo (ds.map stageE) (ds.map stageE) 0 [] :=
   pipeline_eq ds
 
+/-- activateHTTPS cannot be run by the harness (between the stages it obtains certificates from a CA), so the ORDER in
+which it calls the stages is regenerated from its source: mark, (obtain), enable, make redirects — the order in which
+`pipeline` composes them; the redirect list is stored back; and activateHTTPS is the parsing callback of `tls`.
+(A syntactic tie: it pins the call sequence, not the data flow between the calls.) -/
+theorem C15_stage_order :
+    activateStages = ["markQualifiedForAutoHTTPS", "ObtainCertAsync", "enableAutoHTTPS", "makePlaintextRedirects", "RenewManagedCertificates"] ∧
+    activateStoresRedirects = true ∧ "tls:activateHTTPS" ∈ parsingCallbacks ∧
+    (∀ ds, pipeline ds = makeServers (makePlaintextRedirects (enableAutoHTTPS (markQualified ds)))) := by
+  refine ⟨by decide, by decide, by decide, fun _ => rfl⟩
+
 /-- Sites declared as plain HTTP (scheme http or port 80) are never marked managed and never have TLS enabled at the end
 of the pipeline — whatever the host, the bind value and the tls directive (which may have set Enabled). -/
 theorem C15_http_sites_never_tls (ds : List Site) (i : Nat) (d : Site) (hd : ds[i]? = some d) (hm : d.managed = false)
